@@ -110,6 +110,16 @@ def hypLine (args : List String) : String :=
     | _, _, _, _, _, _, _ => "bad-op"
   | _ => "bad-op"
 
+/-- `alias <k1> <n1> <k2> <n2> <v> <v2>` -/
+def aliasLine (args : List String) : String :=
+  match args with
+  | [k1, n1, k2, n2, v, v2] =>
+    match parseKind k1, n1.toNat?, parseKind k2, n2.toNat?, v.toInt?, v2.toInt? with
+    | some k1, some n1, some k2, some n2, some v, some v2 =>
+      resStr (fun (p : Nat × Nat) => hexNat p.1 ++ " " ++ hexNat p.2) (aliasOutputs k1 n1 k2 n2 v v2)
+    | _, _, _, _, _, _ => "bad-op"
+  | _ => "bad-op"
+
 /-- Line protocol of property C12: `c12 <kind> <args...>`. -/
 def handle (args : List String) : String :=
   match args with
@@ -118,6 +128,7 @@ def handle (args : List String) : String :=
   | "cret" :: rest => foldLine rest true
   | "rt" :: rest => rtLine rest
   | "hyp" :: rest => hypLine rest
+  | "alias" :: rest => aliasLine rest
   | _ => "bad-op"
 
 end Drv.C12
